@@ -186,7 +186,10 @@ pub fn run(ctx: &Ctx) {
         }
         out.count_n("exhaustive:alpha40_strings", total);
     }
-    out.run("sigs", true);
+    let sigs = out.run("sigs", true);
+    // the ordering clause of the statement, judged on the implementation's own answer: comparing two levels must
+    // agree with comparing their numeric forms (and the numeric forms must be 0..5 in the stated order)
+    out.spec(&format!("spec.c16.sigs x => {}", sigs));
     out.run("phens", true);
     // the published table and its neighbours, individually (readable, and judged by the oracle)
     for code in EVTS {
